@@ -80,6 +80,12 @@ Wall time on this machine (16 cores): every quick tier finishes in under 3 minut
   token in the real file on disk; the reader's `int(token)` yields the term again. numpy's `savez/load` are an in-memory
   store. `CVRPEnv.load_data` is additionally checked bit-precisely in FP mode. Pickling, `torch.Generator` state and
   Lightning checkpoints cannot be encoded and are outside the claim.
+* **C19 also uses CrossHair** for the one string-level helper of the data-file path: `check_extension` is extracted from
+  the module source at run time and executed on a symbolic `str` (length <= 7) against "only ever appends the extension";
+  a reachability twin (`post: False`) must be refuted; CrossHair's counterexample is replayed on the real function.
+* **C11** has an independent entropy reference (sum over the non-forced steps of -sum p log p of the re-derived step
+  distributions) and evaluates the returned actions also with an explicit `decode_type`; `Categorical(logits=)` entropy
+  and the idempotence of `log_softmax` are part of the stand-in's contract for that.
 * **C09** also covers every move the environments' own samplers (`_random_action`: 2-opt, 3-opt, 4-opt, ruin-repair) can
   draw; the samplers mask with -1e20 / -1e30, i.e. rely on float32 underflow of `exp`, which the softmax contract models
   in those jobs only.
